@@ -174,7 +174,7 @@ def run(prog: Program, L: Ledger) -> None:
                     "isinstance test on the user move outside the `criteria is None` default lookup", "a move that inherits from nothing is rejected even with an explicit criteria", norm(c))
 
     # ------------------------------------------------------------------ P2
-    from ..minieval import PredUnsupported, Raises, ev as mev, run_stmts
+    from ..minieval import FuncTok, PredUnsupported, Raises, ev as mev, run_stmts
     from ..normalize import flat
 
     step0 = mc.methods.get("step")
@@ -216,7 +216,8 @@ def run(prog: Program, L: Ledger) -> None:
     for moved in (True, False):
         for verdict in (True, False):
             events: list[tuple] = []
-            env = {lname: "<name>", "__trace__": []}
+            env = {lname: "<name>", "__trace__": [], "__strict_calls__": True,
+                   "self.save_state": FuncTok("self.save_state"), "self.revert_state": FuncTok("self.revert_state"), "self.move_history.append": FuncTok("self.move_history.append")}
             for c in mv_calls:
                 env[norm(c)] = moved
             for c in ev_calls:
